@@ -2284,10 +2284,16 @@ def replacing_writers(model) -> Dict[str, 'FuncInfo']:
         appenders: Set[str] = set()
         writers: Dict[str, List[FuncInfo]] = {}
         for m in cls.methods.values():
+            sn_ = m.self_name or 'self'
+            entry_alias = {n.targets[0].id: is_self_attr(n.value.value, sn_) for n in walk_no_nested(m.node)
+                           if isinstance(n, ast.Assign) and len(n.targets) == 1 and isinstance(n.targets[0], ast.Name)
+                           and isinstance(n.value, ast.Subscript) and is_self_attr(n.value.value, sn_)}     # lst = self._results[name]
             for n in walk_no_nested(m.node):
-                if isinstance(n, ast.Call) and isinstance(n.func, ast.Attribute) and n.func.attr in ('append', 'extend') \
-                        and isinstance(n.func.value, ast.Subscript) and is_self_attr(n.func.value.value, m.self_name or 'self'):
-                    appenders.add(is_self_attr(n.func.value.value, m.self_name or 'self'))
+                if isinstance(n, ast.Call) and isinstance(n.func, ast.Attribute) and n.func.attr in ('append', 'extend'):
+                    if isinstance(n.func.value, ast.Subscript) and is_self_attr(n.func.value.value, sn_):
+                        appenders.add(is_self_attr(n.func.value.value, sn_))
+                    elif isinstance(n.func.value, ast.Name) and n.func.value.id in entry_alias:
+                        appenders.add(entry_alias[n.func.value.id])
             for st in m.node.body:
                 if isinstance(st, ast.Assign) and len(st.targets) == 1 and isinstance(st.targets[0], ast.Subscript) \
                         and is_self_attr(st.targets[0].value, m.self_name or 'self') \
